@@ -26,6 +26,7 @@ EXPLANATION = (
     "sequences.")
 
 RULES = {
+    "C05-N": "no integer on this property's data path is narrowed by an implicit conversion (parameter handed to a narrower parameter, stored in a narrower field, or a narrow field behind a wider accessor)",
     "C05-XC": "(thorough) decision tables of the configuration-independent functions of this property are identical in every build configuration",
     "C05-E1": "every FALSE return of a typed reader has queued an error on its path, hands on a failing callee's result, or is the licensed absent-optional case",
     "C05-E2": "cause -> error-code tables of SCPI_Parameter and of the numeric readers equal the specification; numeric siblings agree",
@@ -749,6 +750,7 @@ def run(ck, fb, tier):
         rule_e4_e5(ck, prog, S)
         rule_e6(ck, prog, S, ts)
         rule_e9(ck, prog)
+        K.narrowing_rule(ck, prog, "C05-N", lambda f_: f_.relfile.endswith("parser.c") and f_.name.startswith(("SCPI_Param", "ParamSign", "SCPI_Parameter")))
         rule_e10_e11(ck, prog, S)
         rule_e7(ck, prog, S)
         rule_e8(ck, prog, S, spec, ts)
